@@ -7,6 +7,12 @@ BASELINE_OFF = "for m in $(cat /w/out/gomods.txt); do MF=$(cd /repo/$m && . /w/o
 
 # id -> (level text, level_note, technique)
 CLAIMED = {
+ "C11": ("typestate analysis of the reflective traversal: every kind-sensitive reflect.Value call is dominated by a Kind() test of the same value admitting only legal kinds (frozen precondition table), index bounded by Len() of the same value, residual reflect panics converted to an error by a recover barrier at the entry, keys only from String() of a String-kind value at the end of the path, errors exactly on kind failures, in-order full fan-out with error propagation, start+1 recursion bounded by the path, locator split on '.', traversal from reflect.ValueOf(message) at index 0",
+         "equality with an independent reference traversal for every value needs execution; strings.Title and the reflect precondition table are trusted",
+         "static analysis: kind-typestate reaching conditions (dynamic atoms per reflect.Value) + loop/recursion structure + provenance on go/ssa"),
+ "C12": ("structural analysis of the interceptors: unary pass-through (single invoker call, all parameters, context = WithValue(caller ctx, gcpKey, &gcpContext{req, reply}), result returned), stream created only in SendMsg while none exists in one critical section with the first message visible to the picker and the stored parameters, result/error latched there, Broadcast after every latch write, RecvMsg predicate loop then error-or-delegate, SendMsg delegation, context-governed exit of the wait loop, and every grpc.ClientStream method guarded against the nil embedded stream; 5 genuine defects recorded as known findings",
+         "run-time ordering of delegated calls is not decided; sync.Cond semantics trusted",
+         "static analysis: provenance + reaching-condition truth tables + must-pass-through + method-set inspection on go/ssa and go/types"),
  "C15": ("structural analysis of GCPMultiEndpoint routing/reconfiguration: single delegation with all arguments to the connection picked for the call's own context, default-fallback condition as a truth table, pool = pools[me.Current()] under the read lock, dial only without a pool and insertion under the same name, deletion ⇔ endpoint no longer mentioned and paired with Close+stopMonitoring, MultiEndpoint map synchronised with the options, status sync loop before every success return, monitor notifies the state it then waits on to every MultiEndpoint; plus lock discipline",
          "'within bounded time' and which server receives the RPC are not decided",
          "static analysis: reaching-condition truth tables + pairing/dominance + provenance on go/ssa"),
